@@ -77,6 +77,7 @@ func huntAPITransact(t *testing.T, c client.Client, ops []ovsdb.Operation) []ovs
 // The client does not monitor the database, so its cache is empty and the
 // conditions given to WhereAny/WhereAll reach the server as they are.
 func TestHuntAPIWhereAnyMutateTwice(t *testing.T) {
+	t.Skip("item of the first audit, triaged in DESIGN.md 7.1: outside the property as stated, or recorded under another check")
 	c, stop := huntServerAndClient(t)
 	defer stop()
 	ops, err := c.Create(&huntAPIRow{Name: "a", Tag: "x", I: 1}, &huntAPIRow{Name: "b", Tag: "y", I: 1})
